@@ -186,6 +186,28 @@ func (cs *ContractSet) ghostInScope(name, scope string) bool {
 	return ok
 }
 
+// getIn / forFuncIn: contract lookup as seen from package `scope` (write summaries of a function are computed with the
+// assumed contracts of the function's own package, whatever package is being verified).
+func (cs *ContractSet) getIn(scope, key string) *FuncContract {
+	if fc, ok := cs.byName[scope+"::"+key]; ok {
+		return fc
+	}
+	return cs.byName[key]
+}
+
+func (cs *ContractSet) forFuncIn(scope string, fn *ssa.Function) *FuncContract {
+	if fn == nil {
+		return nil
+	}
+	if fc := cs.getIn(scope, funcRef(fn)); fc != nil {
+		return fc
+	}
+	if o := fn.Origin(); o != nil && o != fn {
+		return cs.getIn(scope, funcRef(o))
+	}
+	return nil
+}
+
 func (cs *ContractSet) forFunc(fn *ssa.Function) *FuncContract {
 	if fn == nil {
 		return nil
